@@ -262,7 +262,15 @@ func (t *Transpiler) getTimeRangesForSelector(s *parser.EvalStmt, n *parser.Vect
 }
 
 func (t *Transpiler) transpileParenExpr(e *parser.ParenExpr) (influxql.Node, error) {
-	t.parenExprCount++
+	// The count is consumed by the next binary expression that is built (NewBinaryExpr), which
+	// then comes back parenthesized. Only parentheses around a binary expression may be counted:
+	// those of `(24) / (present_over_time(m[1m]))` parenthesized the field of the division, and a
+	// function applied to a parenthesized field is not wrapped into a sub-query (transpilePromFunc):
+	// timestamp(...) of it failed in a range query with "fill(none) must be used with a function",
+	// clamp_min((m) * (2), 5) with "expected field argument in clamp_min_prom()".
+	if _, ok := e.Expr.(*parser.BinaryExpr); ok {
+		t.parenExprCount++
+	}
 	node, err := t.transpileExpr(e.Expr)
 	if err != nil {
 		return nil, err
